@@ -26,7 +26,7 @@ RULE = ('one run = 1..2 announcer threads (2..8 image announcements incl. duplic
 SHAPE_MEASURE = 'distinct (number of images before sample, header/data relation, boundary classes of frames) tuples'
 ASSUMPTIONS = ['an image announced inside the sample\'s own window, or a shared-cache map between its record and the END of its launch, may '
                'or may not count as "earlier" (both attributions accepted)', 'one stack header per sample',
-               'images that one launch list announces at the same address are all "first": the statement does not order the entries of a list']
+               'of the images that one launch list announces at one address, the first map record and the first shared-cache record may each be "the first": the statement does not order the two kinds within a list']
 USTACK, THINFO = 8, 1
 
 
@@ -236,15 +236,15 @@ def execute(scn):
         if table.get(r['id'], '').startswith('DYLD_uuid_unmap') and not any(a_[2] == r['a'][2] for a_ in ann):
             bump('probe:image_unmapped_that_was_never_mapped')
         if r['id'] == MAP and r['q'] in (0, 3):
-            ann.append([i, i, r['a'][2], _words_to_uuid(r['a'])])
+            ann.append([i, i, r['a'][2], _words_to_uuid(r['a']), 'map'])
         elif r['id'] == MAP and r['q'] == 1:
             bump('probe:map_record_with_start_qualifier_in_launch')
             if r['t'] in open_launch:
-                ann.append([i, None, r['a'][2], _words_to_uuid(r['a'])])
+                ann.append([i, None, r['a'][2], _words_to_uuid(r['a']), 'map'])
                 open_launch[r['t']].append(len(ann) - 1)
         elif r['id'] == SC and r['q'] in (0, 3):
             if r['t'] in open_launch:
-                ann.append([i, None, r['a'][2], _words_to_uuid(r['a'])])
+                ann.append([i, None, r['a'][2], _words_to_uuid(r['a']), 'sc'])
                 open_launch[r['t']].append(len(ann) - 1)
             bump('probe:shared_cache_map')
         elif r['id'] == LAUNCH and r['q'] == 1:
@@ -393,10 +393,14 @@ def execute(scn):
                 dbest = fr.address - off if uuid is not None else -1
                 if uuid is not None:
                     # several images of one launch list share this address: they are announced at the same instant (the launch's
-                    # END) and the statement does not order a list's entries among themselves - any of them may be 'the first'
+                    # END) and the statement does not order a list's map entries against its shared-cache entries
                     first_time = min(a[1] for a in definite if a[2] == dbest)
+                    seen_kinds = set()
                     for a in definite:
-                        if a[2] == dbest and a[1] == first_time:
+                        if a[2] == dbest and a[1] == first_time and a[4] not in seen_kinds:
+                            # (within one kind of record the list keeps stream order; between map and shared-cache records of one
+                            #  list the order is left open: the first of either kind may be 'the first')
+                            seen_kinds.add(a[4])
                             ok.add((a[3], off))
                 for a in maybe:
                     if a[2] <= fr.address and a[2] >= dbest:
